@@ -501,6 +501,16 @@ fn gen_case(rng: &mut Rng) -> Case {
         if rng.chance(1, 10) {
             p.conn = Conn::Close;
         }
+        // responses with an empty body take a different arm of send_response, and responses
+        // handed over through the service's Err path a different copy of the sending code
+        if rng.chance(1, 6) {
+            p.kind = BodyKind::Bytes;
+            p.steps = vec![];
+        }
+        if rng.chance(1, 6) {
+            p.fail = true;
+            p.status = 500;
+        }
         progs.push(p);
     }
     // the byte stream, cut into read segments (cuts inside bodies included)
@@ -594,7 +604,7 @@ fn directed() -> Vec<Case> {
         // unread bodies of both framings, answered before / during / after arrival
         for framing in [1u8, 2] {
             for read in [ReadMode::Ignore, ReadMode::DropFirst, ReadMode::Chunks(1), ReadMode::Hold, ReadMode::AfterRespond] {
-                for split in [0usize, 1, 2] {
+                for split in [0usize, 1, 2, 3] {
                     let reqs = vec![post(framing, 6000), get(0, false)];
                     let a = reqs[0].bytes(0);
                     let b = reqs[1].bytes(1);
@@ -602,9 +612,21 @@ fn directed() -> Vec<Case> {
                     let acts = match split {
                         0 => vec![Act::Push([a.clone(), b.clone()].concat())],
                         1 => vec![Act::Push(a[..head_end + 100].to_vec()), Act::Push([a[head_end + 100..].to_vec(), b.clone()].concat())],
-                        _ => vec![Act::Push(a[..head_end].to_vec()), Act::Push(a[head_end..].to_vec()), Act::Push(b.clone())],
+                        2 => vec![Act::Push(a[..head_end].to_vec()), Act::Push(a[head_end..].to_vec()), Act::Push(b.clone())],
+                        // the rest of the body never arrives and nothing follows
+                        _ => vec![Act::Push(a[..head_end + 100].to_vec())],
                     };
-                    v.push(Case { cfg: cfg.clone(), reqs, progs: vec![Prog { read: read.clone(), ..Default::default() }, Prog::default()], acts, early_eof: false });
+                    v.push(Case { cfg: cfg.clone(), reqs: reqs.clone(), progs: vec![Prog { read: read.clone(), ..Default::default() }, Prog::default()], acts: acts.clone(), early_eof: false });
+                    // the same with an empty response body, and with an error response carrying a
+                    // streamed body (other arms / the other copy of the response-sending code)
+                    v.push(Case { cfg: cfg.clone(), reqs: reqs.clone(), progs: vec![Prog { read: read.clone(), steps: vec![], ..Default::default() }, Prog::default()], acts: acts.clone(), early_eof: false });
+                    v.push(Case {
+                        cfg: cfg.clone(),
+                        reqs,
+                        progs: vec![Prog { read: read.clone(), fail: true, status: 500, kind: BodyKind::BodyStream, steps: vec![BStep::Data(fill_data(4, 1)), BStep::Data(fill_data(5, 9))], ..Default::default() }, Prog::default()],
+                        acts,
+                        early_eof: false,
+                    });
                 }
             }
         }
